@@ -365,7 +365,7 @@ HeaderProtection_remove(HeaderProtectionObject *self, PyObject *args)
         pn_truncated = self->buffer[pn_offset + i] | (pn_truncated << 8);
     }
 
-    return Py_BuildValue("y#i", self->buffer, pn_offset + pn_length, pn_truncated);
+    return Py_BuildValue("y#I", self->buffer, (Py_ssize_t)(pn_offset + pn_length), (unsigned int)pn_truncated);
 }
 
 static PyMethodDef HeaderProtection_methods[] = {
